@@ -1,10 +1,12 @@
 package props
 
 import (
+	"bytes"
 	"fmt"
 	"os"
 	"os/exec"
 	"path/filepath"
+	"strconv"
 	"strings"
 	"time"
 
@@ -71,6 +73,7 @@ func c14Expected(j c14Job) [][]string {
 
 type c14Obs struct {
 	answers [][]string
+	after   [][]string // answers to the same queries after the storage was closed (CloseAfter scenarios)
 }
 
 // c14Run returns the RunFn of a job and a pointer to the observation slot that
@@ -100,7 +103,20 @@ func c14Run(j c14Job, obs *c14Obs) sched.RunFn {
 				}
 			})
 		}
-		return func() { st.Close() }
+		return func() {
+			st.Close()
+			obs.after = nil
+			if j.sc.CloseAfter && j.file {
+				// the storage is closed: everything the concurrent phase returned was
+				// materialised and must still be served (asked sequentially now)
+				obs.after = make([][]string, len(j.sc.Threads))
+				for ti, qs := range j.sc.Threads {
+					for _, q := range qs {
+						obs.after[ti] = append(obs.after[ti], e.Answer(q))
+					}
+				}
+			}
+		}
 	}
 }
 
@@ -132,6 +148,15 @@ func c14Check(j c14Job, exp [][]string, obs *c14Obs, x *sched.Exec) []ev.Violati
 	replay := map[string]any{"job": j.name(), "choices": x.Choices, "schedule": schedString(x)}
 	if x.S.Deadlock {
 		vs = append(vs, ev.Violation{Pred: "no-deadlock", Sig: base("deadlock", ""), What: j.name() + ": deadlock under schedule " + schedString(x), Replay: replay})
+	}
+	for ti := range obs.after {
+		for k := range obs.after[ti] {
+			if k < len(exp[ti]) && obs.after[ti][k] != exp[ti][k] {
+				vs = append(vs, ev.Violation{Pred: "materialised-rules-served-after-close", Sig: base("after-close", j.sc.Threads[ti][k].String()),
+					What:   fmt.Sprintf("%s: after the concurrent phase and Close(), %s answers %s; sequentially (and before Close) %s; schedule %s", j.name(), j.sc.Threads[ti][k], obs.after[ti][k], exp[ti][k], schedString(x)),
+					Replay: replay})
+			}
+		}
 	}
 	if x.S.Livelock {
 		vs = append(vs, ev.Violation{Pred: "no-livelock", Sig: base("livelock", ""), What: j.name() + ": step horizon exceeded", Replay: replay})
@@ -309,8 +334,61 @@ func c14RacePass(c *Ctx) (ran bool, out string, err error) {
 	}
 	cmd := exec.Command(bin, iters)
 	cmd.Env = append(os.Environ(), "GORACE=halt_on_error=0 exitcode=66", "VERIF_WORK="+work)
-	b, e := cmd.CombinedOutput()
-	return true, string(b), e
+	var buf bytes.Buffer
+	cmd.Stdout, cmd.Stderr = &buf, &buf
+	if e := cmd.Start(); e != nil {
+		return false, "", e
+	}
+	done := make(chan error, 1)
+	go func() { done <- cmd.Wait() }()
+	// a free-running deadlock does not end by itself: the pass is stopped when it
+	// has used no CPU time for 90 s (it is blocked, whatever the machine load),
+	// or after a generous wall-clock limit (then it merely counts as incomplete)
+	limit := 15 * time.Minute
+	if c.Thorough() {
+		limit = 2 * time.Hour
+	}
+	start, lastCPU, lastChange := time.Now(), int64(-1), time.Now()
+	for {
+		select {
+		case e := <-done:
+			return true, buf.String(), e
+		case <-time.After(5 * time.Second):
+		}
+		if cpu := procCPUTicks(cmd.Process.Pid); cpu != lastCPU {
+			lastCPU, lastChange = cpu, time.Now()
+		}
+		switch {
+		case time.Since(lastChange) > 90*time.Second:
+			_ = cmd.Process.Kill()
+			<-done
+			return true, buf.String() + "\nBLOCKED: the free-running pass used no CPU time for 90 s and was stopped (all its goroutines wait for each other)\n", nil
+		case time.Since(start) > limit:
+			_ = cmd.Process.Kill()
+			<-done
+			return true, buf.String() + "\nINCOMPLETE: the free-running pass was stopped after " + limit.String() + "\n", nil
+		}
+	}
+}
+
+// procCPUTicks returns utime+stime of the process (clock ticks), -1 if unknown.
+func procCPUTicks(pid int) int64 {
+	b, err := os.ReadFile(fmt.Sprintf("/proc/%d/stat", pid))
+	if err != nil {
+		return -1
+	}
+	s := string(b)
+	i := strings.LastIndexByte(s, ')')
+	if i < 0 {
+		return -1
+	}
+	f := strings.Fields(s[i+1:])
+	if len(f) < 13 {
+		return -1
+	}
+	u, _ := strconv.ParseInt(f[11], 10, 64)
+	st, _ := strconv.ParseInt(f[12], 10, 64)
+	return u + st
 }
 
 func init() {
@@ -419,6 +497,12 @@ func init() {
 				c.Run.Violate(ev.Violation{Pred: "race-detector-clean", Sig: map[string]any{"location": loc},
 					What: "free-running -race pass reported a data race at " + loc, Replay: map[string]any{"racepass": true, "report": tail(first)}})
 				c.Run.Set("racepass", "DATA RACE reported")
+			case strings.Contains(out, "BLOCKED:"):
+				c.Run.Violate(ev.Violation{Pred: "no-deadlock", Sig: map[string]any{"kind": "free-running"},
+					What: "free-running pass: the goroutines of a scenario wait for each other for ever (no CPU time used for 90 s); output so far: " + tail(out), Replay: map[string]any{"racepass": true}})
+				c.Run.Set("racepass", "blocked")
+			case strings.Contains(out, "INCOMPLETE:"):
+				c.Run.Set("racepass", "stopped at the wall-clock limit (incomplete)")
 			case strings.Contains(out, "MISMATCH"):
 				line := out[strings.Index(out, "MISMATCH"):]
 				if i := strings.IndexByte(line, '\n'); i > 0 {
